@@ -414,3 +414,100 @@ func tinyGrids() []*Grid {
 	}
 	return tinyGridsCache
 }
+
+// genPinched: a shell of two lobes joined by a neck narrower than a pixel (the neck collapses onto one pixel
+// centre, so the snapped shell touches itself there and is split), optionally with a hole in one lobe that has a
+// vertex inside the neck's pixel.  Horizontal or vertical; sixteenth-pixel lattice; rejection sampled for validity.
+func genPinched(r *rand.Rand, w Window) ([][]Pt, bool) {
+	u := w.G.Res / 16
+	if u == 0 {
+		return nil, false
+	}
+	px := int64(16)
+	for try := 0; try < 60; try++ {
+		// neck centre somewhere in the middle of the window, in sixteenth-pixel units relative to the window origin
+		n := w.W * px
+		if n < 6*px {
+			return nil, false
+		}
+		nx := 2*px + r.Int63n(n-4*px)
+		ny := 2*px + r.Int63n(n-4*px)
+		half := 1 + r.Int63n(6) // half neck width: 1/16 .. 6/16 px
+		h1 := px + r.Int63n(2*px)
+		h2 := px + r.Int63n(2*px)
+		w1 := px/2 + r.Int63n(2*px)
+		w2 := px/2 + r.Int63n(2*px)
+		// lobe B below, lobe A above the neck
+		ring := []Pt{
+			{nx - w2, ny - h2}, {nx + w2, ny - h2 + r.Int63n(px/2)}, {nx + half, ny}, {nx + w1, ny + h1}, {nx - w1, ny + h1 - r.Int63n(px/2)}, {nx - half, ny},
+		}
+		vertical := r.Intn(2) == 0
+		conv := func(p Pt) Pt {
+			if vertical {
+				p[0], p[1] = p[1], p[0]
+			}
+			return Pt{w.X0 + p[0]*u, w.Y0 + p[1]*u}
+		}
+		shell := make([]Pt, len(ring))
+		for i, p := range ring {
+			shell[i] = conv(p)
+		}
+		if vertical { // the swap mirrors the ring: keep any winding, the implementation normalises
+		}
+		poly := [][]Pt{shell}
+		if !ringSimple(shell) {
+			continue
+		}
+		if r.Intn(4) != 0 {
+			// hole in the lower (or upper) lobe with its first vertex close to the neck
+			up := r.Intn(2) == 0
+			sgn := int64(-1)
+			hh, ww := h2, w2
+			if up {
+				sgn, hh, ww = 1, h1, w1
+			}
+			d := 2 + r.Int63n(px/2)
+			first := Pt{nx + r.Int63n(3) - 1, ny + sgn*d}
+			hole := []Pt{conv(first), conv(Pt{nx - ww/3, ny + sgn*(hh*2/3)}), conv(Pt{nx + ww/3, ny + sgn*(hh*2/3)})}
+			if r.Intn(2) == 0 {
+				hole = []Pt{hole[0], hole[2], hole[1]}
+			}
+			cand := [][]Pt{shell, hole}
+			if ringSimple(hole) && validPolygon(cand) {
+				poly = cand
+			}
+		}
+		if validPolygon(poly) {
+			return poly, true
+		}
+	}
+	return nil, false
+}
+
+// genPeriodic: an adversarially repetitive ring over 2-4 far-apart lattice points: u^k followed by (reverse u)^m,
+// optionally with a prefix; such words drive kmpDeduplicate's match counting (zigzags, backtraces) to its limits.
+func genPeriodic(r *rand.Rand, w Window) []Pt {
+	k := 2 + r.Intn(3)
+	pts := make([]Pt, k)
+	for i := range pts {
+		pts[i] = w.randPt(r)
+	}
+	var ring []Pt
+	if r.Intn(2) == 0 {
+		ring = append(ring, pts[r.Intn(k)])
+	}
+	reps := 1 + r.Intn(8)
+	for i := 0; i < reps; i++ {
+		ring = append(ring, pts...)
+	}
+	back := r.Intn(7)
+	for i := 0; i < back; i++ {
+		for j := k - 1; j >= 0; j-- {
+			ring = append(ring, pts[j])
+		}
+	}
+	for i := r.Intn(3); i > 0; i-- {
+		ring = append(ring, w.randPt(r))
+	}
+	return ring
+}
